@@ -66,8 +66,16 @@ def check_rows(ctx, oid="C11.1"):
 
 
 def run(ctx):
+    # no hidden state: what this property is about keeps nothing at module level between calls (memo tables keyed by less than
+    # the value depends on, caches of the outside world, counters) -- a verdict on one call must hold for every later call
+    from .. import rules as _rules
+    _rules.check_hidden_state(ctx, 'C11.5', ['bits.bips.bip143.witness_message', 'bits.bips.bip143.witness_digest'])
     R = ctx.R
     check_rows(ctx)
+    # "signatures made over it are valid": the message reaches the curve through bits.sig -- what is hashed, the type byte
+    # appended, and the refusal of a pre-image whose own type differs from the requested one (shared with C01)
+    from . import c01 as _c01
+    _c01.check_sig_modes(ctx, "C11.6")
     ev = ctx.evaluator()
     fd = ctx.fn("bits.bips.bip143.witness_digest")
     sd = ev.run(fd)
